@@ -42,6 +42,7 @@ TRUSTED = [
     "Lean 4 kernel",
     "harness/extract.py: recognition of the try/except around _check_shape and PyTree._check",
     "print_bindings() shows every binding (axes, variadics, structures) of the current context",
+    "harness/translate_tree.py (recognisers of the statements of _MetaPyTree.__instancecheck__ / _check) and the interpreter Model/TreeDsl.lean (flatten and the structure block are primitives)",
 ]
 
 P = {"op": "print"}
